@@ -178,7 +178,7 @@ class ArrayLookup(Assignable):
     @property
     def const(self):
         if self.source.type == DataType.STRING:
-            return False
+            return True
         return self.source.type.const
 
     def evaluate(self, env):
